@@ -1,4 +1,4 @@
-import Req.Lemmas.C18Err
+import Req.Lemmas.C18Bind
 /-!
 C18 — property theorems, part 2: the call pipeline (`Req.Pipeline`, the model of
 `Request.Do/do/Send/Get…/Must*`, `Client.roundTrip`, `WrapRoundTrip`, `handleDigestAuthFunc`).
@@ -269,5 +269,165 @@ theorem precedence_previous_over_request_mw (fx : Fixes) (s : Stack) (a : Nat) (
     rw [h2] at hk; cases hk
     simp [Att.seen, h6, h7]
   · have := hok _ (List.mem_of_getElem? hk); cases this
+
+/-! ### result binding as the caller sees it -/
+
+/-- The response object handed to the caller. -/
+def callResp : Out → Option Resp
+  | .ret r _ _ _ => r
+  | _ => none
+
+theorem callResp_callDo (fx : Fixes) (s : Stack) (r : Resp) (h : callResp (run fx s) = some r) :
+    (callDo fx s).resp = some r := by
+  unfold run at h
+  cases hc : (callDo fx s).crash <;> simp only [hc, Bool.false_eq_true, if_false, if_true] at h
+  · cases hr : (callDo fx s).resp with
+    | none => simp [hr, callResp] at h
+    | some r0 =>
+      simp only [hr] at h
+      cases he : s.entry <;> cases hre : r0.err <;> simp_all [callResp]
+  · simp [callResp] at h
+
+/-- **success_bound_iff (call level)** — on the response any call returns, for every stack: if
+the success result is populated then a target was supplied and the http response the caller
+holds is in the success state, is not a 204, reads and unmarshals; and whenever the call
+reports no error the converse holds too. -/
+theorem success_bound_call (s : Stack) (r : Resp) (hr : callResp (run Fixes.all s) = some r) :
+    (r.slots.result = true → ∃ h, r.http = some h ∧ SuccessRHS s h) ∧
+    (r.err = none → (r.slots.result = true ↔ ∃ h, r.http = some h ∧ SuccessRHS s h)) := by
+  have hf := callDo_final s r (callResp_callDo _ s r hr)
+  have sound : Agrees s r → (r.slots.result = true ↔ ∃ h, r.http = some h ∧ SuccessRHS s h) := by
+    intro ha
+    unfold Agrees at ha
+    rcases hh : r.http with _ | h
+    · rw [hh] at ha; simp [ha]
+    · rw [hh] at ha; simp [ha.1]
+  refine ⟨?_, ?_⟩
+  · rcases hf with ha | ⟨h1, _⟩
+    · exact (sound ha).mp
+    · intro h; rw [h1] at h; cases h
+  · intro he
+    rcases hf with ha | ⟨_, h2⟩
+    · exact sound ha
+    · exact absurd he h2
+
+/-- **error_bound_iff (call level)** — likewise for the error result: the request-level target
+when one was supplied, an object of the client-level common error type only when none was. -/
+theorem error_bound_call (s : Stack) (r : Resp) (hr : callResp (run Fixes.all s) = some r) :
+    (r.slots.error = some .errorReq → ∃ h, r.http = some h ∧ ErrReqRHS s h) ∧
+    (r.slots.error = some .errorCommon → ∃ h, r.http = some h ∧ ErrCommonRHS s h) ∧
+    r.slots.error ≠ some .success ∧
+    (r.err = none →
+      (r.slots.error = some .errorReq ↔ ∃ h, r.http = some h ∧ ErrReqRHS s h) ∧
+      (r.slots.error = some .errorCommon ↔ ∃ h, r.http = some h ∧ ErrCommonRHS s h)) := by
+  have hf := callDo_final s r (callResp_callDo _ s r hr)
+  have sound : Agrees s r →
+      (r.slots.error = some .errorReq ↔ ∃ h, r.http = some h ∧ ErrReqRHS s h) ∧
+      (r.slots.error = some .errorCommon ↔ ∃ h, r.http = some h ∧ ErrCommonRHS s h) ∧
+      r.slots.error ≠ some .success := by
+    intro ha
+    unfold Agrees at ha
+    rcases hh : r.http with _ | h
+    · rw [hh] at ha; simp [ha]
+    · rw [hh] at ha; simp [ha.2.1, ha.2.2.1, ha.2.2.2]
+  rcases hf with ha | ⟨h1, h2⟩
+  · obtain ⟨a, b, c⟩ := sound ha
+    exact ⟨a.mp, b.mp, c, fun _ => ⟨a, b⟩⟩
+  · refine ⟨by simp [h1], by simp [h1], by simp [h1], fun he => absurd he h2⟩
+
+/-- **never_both (call level)** — no call ever returns a response with both the success result
+and the error result populated. -/
+theorem never_both_call (s : Stack) (r : Resp) (hr : callResp (run Fixes.all s) = some r) :
+    ¬ (r.slots.result = true ∧ r.slots.error ≠ none) := by
+  intro ⟨h1, h2⟩
+  obtain ⟨h, hh, hs⟩ := (success_bound_call s r hr).1 h1
+  obtain ⟨e1, e2, e3, _⟩ := error_bound_call s r hr
+  rcases hse : r.slots.error with _ | t
+  · exact h2 hse
+  · cases t
+    · exact e3 hse
+    · obtain ⟨h', hh', he⟩ := e1 hse
+      rw [hh] at hh'; cases hh'
+      have := hs.2.1; rw [he.2.1] at this; cases this
+    · obtain ⟨h', hh', he⟩ := e2 hse
+      rw [hh] at hh'; cases hh'
+      have := hs.2.1; rw [he.2.2.1] at this; cases this
+
+def exHttp (status : Int) (jsonOK : Bool) : Http :=
+  { status := status, ct := [], custom := none, readOK := true, jsonOK := jsonOK, xmlOK := false }
+
+/-- digest: 401 then 200, success and error targets supplied -/
+def exDigest : Stack :=
+  { successTarget := true,
+    errorTarget := true,
+    transport := [.resp (exHttp 401 true)],
+    reqResp := [[.digest true (.resp (exHttp 200 true))]] }
+
+example : (callResp (run Fixes.all exDigest)).map (fun r => (r.tag, r.slots)) = some (1, { result := true, error := none }) := by
+  decide
+
+/-- The digest middleware as found returns the final 200 (exchange tag 1, success state) with the
+SUCCESS result empty and the ERROR result bound from the 401 — `success_bound_call` fails for
+the code as found (`fixes/C18-1-digest-rebind.patch`). -/
+theorem as_found_digest_stale_binding :
+    (callResp (run Fixes.none exDigest)).map (fun r => (r.tag, r.err, r.slots)) =
+      some (1, none, { result := false, error := some .errorReq }) := by
+  decide
+
+theorem selectTarget_congr (i j : BindIn) (h1 : i.http = j.http) (h2 : i.successTarget = j.successTarget)
+    (h3 : i.errorTarget = j.errorTarget) (h4 : i.commonErr = j.commonErr) : selectTarget i = selectTarget j := by
+  unfold selectTarget; rw [h1, h2, h3, h4]
+
+/-- The target `parseResponseBody` selects for an http response `h` under the targets of `s`. -/
+def targetFor (s : Stack) (h : Http) : Option Target :=
+  selectTarget (bindIn s { origin := .synth, http := some h })
+
+/-- **unmarshal_failure_surfaces (round trip)** — on any attempt of any stack: when the
+transport answers with a response for which a target is selected, whose body reads but does
+not unmarshal, `Client.roundTrip` returns the unmarshalling error, records it in `resp.Err` and
+binds nothing — provided no later client-level middleware overrides it (last error wins, see
+`precedence_client_loop_last_wins`). By `stage_error_is_seen` the caller then sees an error. -/
+theorem unmarshal_failure_surfaces_roundtrip (s : Stack) (a : Nat) (h : Http) (t : Target)
+    (hg : s.getBodyAt a = false) (ht : s.transportAt a = .resp h) (hsel : targetFor s h = some t)
+    (hread : h.readOK = true) (hbad : codecOK h = false) (hquiet : ∀ m ∈ s.clientAt a, m = .nop) :
+    (clientRoundTrip s a).err = some .unmarshal ∧
+    ∃ r, (clientRoundTrip s a).resp = some r ∧ r.err = some .unmarshal ∧ r.slots = {} ∧
+      .raised .unmarshal ∈ (clientRoundTrip s a).evs := by
+  have hex : exchange s a = ({ origin := .roundTrip a, http := some h, tag := 2 * a }, []) := by
+    unfold exchange; rw [ht]
+  have hfold : ∀ cur, (s.clientAt a).foldl clientActErr cur = cur := by
+    intro cur
+    generalize s.clientAt a = l at hquiet
+    induction l generalizing cur with
+    | nil => rfl
+    | cons m rest ih =>
+      have : m = .nop := hquiet m (by simp)
+      subst this
+      exact ih _ (fun m hm => hquiet m (by simp [hm]))
+  -- the response after the auto-read block
+  obtain ⟨a1, a2, a3⟩ := autoRead_ready s { origin := .roundTrip a, http := some h, tag := 2 * a } h rfl rfl rfl
+  generalize hr' : (autoRead s { origin := .roundTrip a, http := some h, tag := 2 * a }).1 = r' at a1 a2 a3
+  have hready := a3.mpr hread
+  have hsel' : selectTarget (bindIn s r') = some t := by
+    rw [← hsel]; unfold targetFor
+    exact selectTarget_congr _ _ (by simp [bindIn, a1]) rfl rfl rfl
+  obtain ⟨u1, u2⟩ := unmarshal_failure_surfaces (bindIn s r') h t (by simp [bindIn, a1]) hsel' hready.1 hready.2 hbad
+  have hslots : (parseBody (bindIn s r')).slots = {} := by rw [u2]; simp [bindIn, a2]
+  unfold clientRoundTrip
+  simp only [hg, Bool.false_eq_true, if_false, hex, hr']
+  have hret : (parseResp s r').ret = some .unmarshal := u1
+  simp only [hret]
+  obtain ⟨c1, c2⟩ := clientLoop_same (s.clientAt a) 0 ({ (parseResp s r').resp with err := some .unmarshal } : Resp)
+  have c3 := precedence_client_loop_last_wins (s.clientAt a) 0 ({ (parseResp s r').resp with err := some .unmarshal } : Resp)
+  rw [hfold] at c3
+  refine ⟨c3, _, rfl, c3, ?_, ?_⟩
+  · rw [c2]; exact hslots
+  · refine List.mem_append_left _ (List.mem_append_right _ ?_)
+    unfold parseResp
+    simp only [List.mem_append]
+    right
+    have : (bindIn s r').respErr = none := hready.1
+    simp only [bindIn] at this
+    rw [u1, this]; simp [newErrEv]
 
 end Req.Props.C18
